@@ -527,6 +527,17 @@ theorem accept_members (st st' : Settings) (rs : List RawTxn) (ts : List Txn)
     obtain ⟨t, ht, e⟩ := List.mem_map.mp this
     exact ⟨t, ht, e.symm⟩
 
+theorem map_eq_filterMap_some {α β : Type} (f : α → Option β) : ∀ l : List α, (∀ r ∈ l, (f r).isSome) →
+    l.map f = (l.filterMap f).map some := by
+  intro l
+  induction l with
+  | nil => intro _; rfl
+  | cons a tl ih =>
+    intro hl
+    have ha := hl a List.mem_cons_self
+    obtain ⟨x, hx⟩ := Option.isSome_iff_exists.mp ha
+    simp [List.filterMap_cons, hx, ih (fun r hr => hl r (List.mem_cons_of_mem _ hr))]
+
 /-! ## 3. permuting the journal -/
 
 /-- **order independence of acceptance.**  If `rs'` is a permutation of `rs`: one is accepted iff the other is,
@@ -539,36 +550,10 @@ theorem accept_perm (st st₁ : Settings) (rs rs' : List RawTxn) (ts : List Txn)
   have hm := (accept_as_map st rs ts).mp ⟨st₁, h⟩
   obtain ⟨e1, hall⟩ := accept_members st st₁ rs ts h
   have hm' : rs'.map (accO st) = (rs'.filterMap (accO st)).map some := by
-    apply List.ext_getElem
-    · simp only [List.length_map]
-      have : ∀ l : List RawTxn, (∀ r ∈ l, (accO st r).isSome) → (l.filterMap (accO st)).length = l.length := by
-        intro l
-        induction l with
-        | nil => intro _; rfl
-        | cons a tl ih =>
-          intro hl
-          have ha := hl a List.mem_cons_self
-          obtain ⟨x, hx⟩ := Option.isSome_iff_exists.mp ha
-          simp [List.filterMap_cons, hx, ih (fun r hr => hl r (List.mem_cons_of_mem _ hr))]
-      rw [this]
-      intro r hr
-      obtain ⟨t, _, e⟩ := hall r (hp.symm.subset hr)
-      simp [e]
-    · intro i h1 h2
-      have key : ∀ l : List RawTxn, (∀ r ∈ l, (accO st r).isSome) → l.map (accO st) = (l.filterMap (accO st)).map some := by
-        intro l
-        induction l with
-        | nil => intro _; rfl
-        | cons a tl ih =>
-          intro hl
-          have ha := hl a List.mem_cons_self
-          obtain ⟨x, hx⟩ := Option.isSome_iff_exists.mp ha
-          simp [List.filterMap_cons, hx, ih (fun r hr => hl r (List.mem_cons_of_mem _ hr))]
-      have hk := key rs' (by
-        intro r hr
-        obtain ⟨t, _, e⟩ := hall r (hp.symm.subset hr)
-        simp [e])
-      simp only [hk]
+    apply map_eq_filterMap_some
+    intro r hr
+    obtain ⟨t, _, e⟩ := hall r (hp.symm.subset hr)
+    simp [e]
   obtain ⟨st₁', h'⟩ := (accept_as_map st rs' _).mpr hm'
   refine ⟨_, st₁', h', hm, hm', ?_⟩
   rw [e1]
@@ -1002,6 +987,172 @@ theorem final_state_perm (st s₁ s₁' : Settings) (rs rs' : List RawTxn) (ts t
     SameCharts s₁ s₁' ∧ (st.strict = false → AncClosed s₁.accounts ∧ AncClosed s₁'.accounts) :=
   same_of_eff (acceptJournal_eff _ _ _ _ h) (acceptJournal_eff _ _ _ _ h') hcl
     (fun _ => (hp.flatMap_right _).mem_iff) (fun _ => (hp.flatMap_right _).mem_iff) (fun _ => (hp.flatMap_right _).mem_iff)
+
+/-! ## 5. headers, distinguishability -/
+
+theorem acc_header (st : Settings) (r : RawTxn) (t : Txn) (h : acc st r = .ok t) : t.header = r.header := by
+  obtain ⟨s2, h2⟩ := (map_fst_ok _ _).mp h
+  obtain ⟨_, ps, _, _, rfl, _⟩ := (acceptTxn_ok _ _ _ _).mp h2
+  rfl
+
+/-- accepted transactions of pairwise distinguishable parse trees are pairwise distinguishable -/
+theorem accepted_distinct (st st' : Settings) (rs : List RawTxn) (ts : List Txn)
+    (h : acceptJournal st rs = .ok (ts, st'))
+    (hd : ∀ a b, a ∈ rs → b ∈ rs → hdrKey a.header = hdrKey b.header → a = b) :
+    ∀ a b, a ∈ ts → b ∈ ts → hdrKey a.header = hdrKey b.header → a = b := by
+  obtain ⟨e, _⟩ := accept_members st st' rs ts h
+  intro a b ha hb hk
+  rw [e] at ha hb
+  obtain ⟨ra, hra, ea⟩ := List.mem_filterMap.mp ha
+  obtain ⟨rb, hrb, eb⟩ := List.mem_filterMap.mp hb
+  have h1 := acc_header st ra a ((accO_eq_some _ _ _).mp ea)
+  have h2 := acc_header st rb b ((accO_eq_some _ _ _).mp eb)
+  have : ra = rb := hd ra rb hra hrb (by rw [← h1, ← h2]; exact hk)
+  subst this
+  rw [ea] at eb
+  exact Option.some.inj eb
+
+/-! ## 6. files: threading the settings through files is threading them through the concatenation -/
+
+theorem mapMS_append {σ α β : Type} (f : σ → α → Outcome (β × σ)) : ∀ (l1 l2 : List α) (s : σ),
+    mapMS f s (l1 ++ l2) =
+      (match mapMS f s l1 with
+       | .ok (b1, s1) =>
+         (match mapMS f s1 l2 with
+          | .ok (b2, s2) => .ok (b1 ++ b2, s2)
+          | .err => .err
+          | .undef => .undef)
+       | .err => .err
+       | .undef => .undef) := by
+  intro l1
+  induction l1 with
+  | nil =>
+    intro l2 s
+    simp only [List.nil_append, mapMS]
+    cases mapMS f s l2 with
+    | ok r => obtain ⟨b, t⟩ := r; rfl
+    | err => rfl
+    | undef => rfl
+  | cons a tl ih =>
+    intro l2 s
+    simp only [List.cons_append, mapMS]
+    cases f s a with
+    | err => rfl
+    | undef => rfl
+    | ok r =>
+      obtain ⟨b, s1⟩ := r
+      simp only [ih l2 s1]
+      cases mapMS f s1 tl with
+      | err => rfl
+      | undef => rfl
+      | ok r2 =>
+        obtain ⟨bs, s2⟩ := r2
+        simp only []
+        cases mapMS f s2 l2 with
+        | err => rfl
+        | undef => rfl
+        | ok r3 => obtain ⟨b2, s3⟩ := r3; rfl
+
+/-- an arrangement of parse trees into files, accepted file by file (`paths_to_txns` after parsing) -/
+def acceptTrees (st : Settings) (rss : List (List RawTxn)) : Outcome (List Txn × Settings) :=
+  (mapMS acceptJournal st rss).map fun r => (r.1.flatten, r.2)
+
+/-- … and loaded: `TxnData::from` sorts the concatenation -/
+def loadTrees (st : Settings) (rss : List (List RawTxn)) : Outcome (List Txn × Settings) :=
+  (mapMS acceptJournal st rss).map fun r => (sortTxns r.1.flatten, r.2)
+
+/-- **file boundaries are invisible to acceptance** (three-valued, same final settings) -/
+theorem acceptTrees_flatten : ∀ (rss : List (List RawTxn)) (st : Settings),
+    acceptTrees st rss = acceptJournal st rss.flatten := by
+  intro rss
+  induction rss with
+  | nil => intro st; simp [acceptTrees, acceptJournal, mapMS, Outcome.map]
+  | cons a tl ih =>
+    intro st
+    have e : acceptJournal st (a ++ tl.flatten) = mapMS acceptTxn st (a ++ tl.flatten) := rfl
+    simp only [List.flatten_cons, e, mapMS_append]
+    simp only [acceptTrees, mapMS]
+    have e2 : acceptJournal st a = mapMS acceptTxn st a := rfl
+    rw [e2]
+    cases mapMS acceptTxn st a with
+    | err => rfl
+    | undef => rfl
+    | ok r =>
+      obtain ⟨b, s1⟩ := r
+      have := ih s1
+      simp only [acceptTrees, acceptJournal] at this
+      simp only []
+      rw [← this]
+      cases hm : mapMS acceptJournal s1 tl with
+      | err => rfl
+      | undef => rfl
+      | ok r2 => obtain ⟨bs, s2⟩ := r2; rfl
+
+theorem loadTrees_eq (st : Settings) (rss : List (List RawTxn)) :
+    loadTrees st rss = (acceptJournal st rss.flatten).map fun r => (sortTxns r.1, r.2) := by
+  rw [← acceptTrees_flatten]
+  unfold loadTrees acceptTrees
+  cases mapMS acceptJournal st rss with
+  | ok r => rfl
+  | err => rfl
+  | undef => rfl
+
+/-- text level: files that parse (file `i` to the trees `rss[i]`) are loaded as their parse trees -/
+theorem loadFiles_eq (cfg : Time.TsCfg) : ∀ (files : List (List Char)) (rss : List (List RawTxn)) (st : Settings),
+    files.map (Syntax.parseJournal cfg) = rss.map some →
+    loadFiles cfg st files = loadTrees st rss := by
+  have key : ∀ (files : List (List Char)) (rss : List (List RawTxn)),
+      files.map (Syntax.parseJournal cfg) = rss.map some →
+      ∀ st, mapMS (acceptText cfg) st files = mapMS acceptJournal st rss := by
+    intro files
+    induction files with
+    | nil =>
+      intro rss h st
+      cases rss with
+      | nil => rfl
+      | cons _ _ => simp at h
+    | cons f tl ih =>
+      intro rss h st
+      cases rss with
+      | nil => simp at h
+      | cons rs rtl =>
+        simp only [List.map_cons, List.cons.injEq] at h
+        simp only [mapMS, acceptText, h.1]
+        cases acceptJournal st rs with
+        | err => rfl
+        | undef => rfl
+        | ok r => obtain ⟨b, s1⟩ := r; simp only [ih rtl h.2 s1]
+  intro files rss st h
+  unfold loadFiles loadTrees
+  rw [key files rss h st]
+
+/-- one text is one file -/
+theorem loadText_eq (cfg : Time.TsCfg) (s : List Char) (rs : List RawTxn) (st : Settings)
+    (h : Syntax.parseJournal cfg s = some rs) (hne : rs ≠ []) :
+    loadText cfg st s = loadTrees st [rs] := by
+  rw [loadTrees_eq]
+  unfold loadText loadJournal
+  simp only [h, List.flatten_cons, List.flatten_nil, List.append_nil]
+  cases rs with
+  | nil => exact absurd rfl hne
+  | cons a tl => rfl
+
+/-! ## 7. the class of a failure does depend on the order when both classes are present -/
+
+namespace Witness
+def lax0 : Settings := Settings.ofConfig false false true [] [] []
+def hdr0 : Header := ⟨⟨0, 0⟩, none, none, none, none, none, none⟩
+/-- rejected on its own: the postings do not sum to zero -/
+def rErr : RawTxn := ⟨hdr0, [⟨["a"], Dec.ofInt 1, none, none⟩], none⟩
+/-- outside the modelled numeric domain on its own: `10⁻²⁰ × 10⁻²⁰` is not representable and not an overflow -/
+def rUndef : RawTxn :=
+  ⟨hdr0, [⟨["a"], ⟨false, 1, 20⟩, some ⟨"X", none, some (.unitPrice ⟨⟨false, 1, 20⟩, "Y"⟩)⟩, none⟩], none⟩
+end Witness
+
+open Witness in
+theorem status_order_witness :
+    acceptJournal lax0 [rErr, rUndef] = .err ∧ acceptJournal lax0 [rUndef, rErr] = .undef := by
+  constructor <;> decide
 
 end AcceptOrder
 end Tackler
